@@ -38,6 +38,10 @@ RULE = ('random API-built designs from gen_designs without nand (15 primitive op
         'Variants: blocks NOT built directly -- copy_block, copy of a copy, optimize (copy and in place), synthesize '
         '(+optimize) results -- and designs whose memories all share one name with different initial contents go '
         'through the same module tie + search + testbench checks.  '
+        'Wide constants: designs with 33..130-bit constants (boundary values, incl. value = width) in every '
+        'position a constant can take.  Own names: user registers / wires / constants / inputs / outputs named like '
+        'the identifiers the emitted texts declare themselves (rst, clk, tb_iter, block, mem_<id>, _ver_out_tmp_<k>, '
+        'toplevel, tb ...) under every add_reset option: either PyrtlError or text that passes all checks.  '
         'Sanitizer: per design the Coq sanitizer model (parameters regenerated from the source) is evaluated on '
         'the wire names and compared with the identifiers read off the emitted text.  '
         'Targeted: every IEEE 1364-2001 keyword as a wire name; sanitizer-prefix, mem_<id> and '
@@ -84,6 +88,50 @@ def report_once(ctx, sig, what, rep, limit=2):
         ctx.spec_violation(sig, what, rep)
 
 
+def safe_eval(ctx, exprs, imports, tag, shard, per_shard_timeout=150, single_timeout=45):
+    """ctx.coq_eval that never raises and never waits long: a shard that fails or times out is re-run one
+    expression per file; an expression that still fails yields None"""
+    import concurrent.futures
+    import coqrun
+    if not exprs:
+        return []
+    shards = [(k, exprs[k:k + shard]) for k in range(0, len(exprs), shard)]
+    out = [None] * len(exprs)
+
+    def run_shard(job):
+        k, es = job
+        try:
+            return k, coqrun.eval_exprs(es, imports, ctx.workdir, '%s_%d' % (tag, k), shard=len(es), jobs=1,
+                                        timeout=per_shard_timeout)
+        except Exception as e:
+            return k, e
+    with concurrent.futures.ThreadPoolExecutor(max_workers=12) as ex:
+        results = list(ex.map(run_shard, shards))
+    retry = []
+    for (k, es), (_, r) in zip(shards, results):
+        if isinstance(r, Exception):
+            retry += [(k + j, [e]) for j, e in enumerate(es)]
+        else:
+            out[k:k + len(es)] = r
+
+    def run_one(job):
+        k, es = job
+        try:
+            return k, coqrun.eval_exprs(es, imports, ctx.workdir, '%s_r%d' % (tag, k), shard=1, jobs=1,
+                                        timeout=single_timeout)[0]
+        except Exception as e:
+            return k, e
+    if retry:
+        with concurrent.futures.ThreadPoolExecutor(max_workers=12) as ex:
+            for k, r in ex.map(run_one, retry):
+                if isinstance(r, Exception):
+                    ctx.count('evaluator', 'failed:' + tag)
+                    ctx.notes.append('%s expression %d could not be evaluated: %s' % (tag, k, str(r)[-300:]))
+                else:
+                    out[k] = r
+    return out
+
+
 def export(block, add_reset):
     f = io.StringIO()
     pyrtl.output_to_verilog(f, add_reset=add_reset, block=block)
@@ -119,8 +167,6 @@ def ident_map(block, wid, mod):
     numbering orders (sorted by name / set iteration); the first candidate consistent with the declared
     widths and with the operands of every assign in the text is used."""
     declared = mod.declared()
-    kept = [w for w in block.wirevector_set if w.name in declared]
-    pending = [w for w in block.wirevector_set if w.name not in declared]
     uses = {}
     for lhs, e in mod.assigns + mod.updates:
         acc = set()
@@ -129,17 +175,33 @@ def ident_map(block, wid, mod):
     for lhs, _, a in mod.memrds:
         uses[lhs] = {a}
     first = None
+    for prefix_is_generated in (True, False):
+        r = _ident_map_try(block, wid, declared, uses, prefix_is_generated)
+        if r[2]:
+            return r[0], r[1]
+        first = first or r
+    return first[0], first[1]
+
+
+def _ident_map_try(block, wid, declared, uses, prefix_is_generated):
+    def is_kept(w):
+        return w.name in declared and not (prefix_is_generated and w.name.startswith('_ver_out_tmp_'))
+    kept = [w for w in block.wirevector_set if is_kept(w)]
+    pending = [w for w in block.wirevector_set if not is_kept(w)]
+    first = None
     for order in (sorted(pending, key=lambda w: w.name), pending):
         idmap = {w.name: wid[w] for w in kept}
         rev = {w.name: w for w in kept}
+        clash = False
         for k, w in enumerate(order):
             nm = '_ver_out_tmp_%d' % k
-            if nm in idmap:
-                raise vr.ReaderError('generated name %s equals a kept name' % nm)
+            clash = clash or nm in idmap
             idmap[nm] = wid[w]
             rev[nm] = w
         if first is None:
-            first = (idmap, rev)
+            first = (idmap, rev, False)
+        if clash:
+            continue
         name_of = {id(w): nm for nm, w in rev.items()}
         ok = all(declared.get(nm) == w.bitwidth for nm, w in rev.items())
         for n in block.logic:
@@ -148,7 +210,7 @@ def ident_map(block, wid, mod):
             if n.op != '@' and uses.get(name_of.get(id(n.dests[0]))) != {name_of.get(id(a)) for a in n.args}:
                 ok = False
         if ok:
-            return idmap, rev
+            return idmap, rev, True
     return first
 
 
@@ -271,10 +333,147 @@ def derive_block(how, d):
     return nd
 
 
+WIDE = [33, 34, 40, 48, 63, 64, 65, 96, 127, 128, 129, 130]
+
+
+def wide_value(rng, w):
+    top = (1 << w) - 1
+    cands = [1 << 31, (1 << 32) - 1, 1 << 32, (1 << 32) + 1, top, 1 << (w - 1), (1 << (w - 1)) - 1, w, w + 1, 1,
+             (1 << 63) % (top + 1), ((1 << 64) - 1) & top]
+    return rng.choice(cands) if rng.random() < 0.6 else rng.getrandbits(w)
+
+
+def wide_const(rng, w=None):
+    w = w or rng.choice(WIDE)
+    v = wide_value(rng, w)
+    k = rng.random()
+    if k < 0.6:
+        return pyrtl.Const(v, bitwidth=w)
+    if k < 0.8:
+        return pyrtl.Const("%d'd%d" % (w, v))
+    return pyrtl.Const("%d'h%x" % (w, v))
+
+
+def wide_const_design(rng):
+    """a small design with constants of 33..130 bits (boundary values) in every position a constant can take:
+    either operand of every binary op, ~, mux select data, concat parts, sliced / indexed, driving an Output
+    directly, register next value and reset value, memory write data / address / enable, ROM words"""
+    fit = gen_designs.fit
+    pyrtl.reset_working_block()
+    d = gen_designs.Design(pyrtl.working_block())
+    d.inputs = [pyrtl.Input(rng.choice(WIDE + [1, 3, 8]), 'in%d' % k) for k in range(rng.randint(2, 3))]
+    pick = lambda: rng.choice(d.inputs)
+    bit = lambda: pick()[rng.randrange(2)] if len(d.inputs[0]) > 1 else pick()[0]
+    sel = lambda: (lambda w: w[rng.randrange(len(w))])(pick())
+    outs = []
+    positions = ['binop'] * 4 + ['not', 'mux', 'mux', 'concat', 'slice', 'index', 'direct', 'reg', 'memwr', 'rom',
+                                 'narrow-dest', 'const-addr']
+    for pos in rng.sample(positions, rng.randint(6, 9)):
+        c = wide_const(rng)
+        w = len(c)
+        a = fit(rng, pick(), w)
+        d.ops.append('wide:' + pos)
+        if pos == 'binop':
+            op = rng.choice(['+', '-', '*', '&', '|', '^', '<', '>', '=='])
+            x, y = (c, a) if rng.random() < 0.5 else (a, c)
+            if rng.random() < 0.2:
+                y = wide_const(rng, w)      # both operands constant
+                x = c
+            if op == '*' and w > 70:
+                op = '-'
+            outs.append({'+': lambda: x + y, '-': lambda: x - y, '*': lambda: x * y, '&': lambda: x & y,
+                         '|': lambda: x | y, '^': lambda: x ^ y, '<': lambda: x < y, '>': lambda: x > y,
+                         '==': lambda: x == y}[op]())
+        elif pos == 'not':
+            outs.append(~c)
+        elif pos == 'mux':
+            outs.append(pyrtl.select(sel(), c, wide_const(rng, w) if rng.random() < 0.5 else a))
+        elif pos == 'concat':
+            outs.append(pyrtl.concat(c, pick()) if rng.random() < 0.5 else pyrtl.concat(pick(), c, wide_const(rng)))
+        elif pos == 'slice':
+            lo = rng.randrange(w - 1)
+            outs.append(c[lo:rng.randint(lo + 1, w)])
+        elif pos == 'index':
+            outs.append(c[rng.choice([0, 31, 32, w - 1])])
+        elif pos == 'direct':
+            outs.append(c)
+        elif pos == 'narrow-dest':
+            outs.append((c + a).truncate(rng.choice([1, 32, 33, w - 1])))
+        elif pos == 'reg':
+            r = pyrtl.Register(w, 'r%d' % len(d.regs), reset_value=wide_value(rng, w) if rng.random() < 0.8 else None)
+            r.next <<= pyrtl.select(sel(), c, r + a)
+            d.regs.append(r)
+            outs.append(r)
+        elif pos == 'memwr':
+            m = pyrtl.MemBlock(bitwidth=w, addrwidth=2, name='wmem%d' % len(d.mems), max_read_ports=None,
+                               max_write_ports=None, asynchronous=True)
+            m[fit(rng, pick(), 2)] <<= pyrtl.MemBlock.EnabledWrite(c, sel())
+            outs.append(pyrtl.as_wires(m[fit(rng, pick(), 2)]))
+            d.mems.append(m)
+        elif pos == 'const-addr':
+            m = pyrtl.MemBlock(bitwidth=w, addrwidth=3, name='amem%d' % len(d.mems), max_read_ports=None,
+                               max_write_ports=None, asynchronous=True)
+            m[pyrtl.Const(rng.randrange(8), bitwidth=3)] <<= pyrtl.MemBlock.EnabledWrite(a, pyrtl.Const(1, bitwidth=1))
+            outs.append(pyrtl.as_wires(m[pyrtl.Const(rng.randrange(8), bitwidth=3)]))
+            d.mems.append(m)
+        elif pos == 'rom':
+            vals = [wide_value(rng, w) for _ in range(4)]
+            rom = pyrtl.RomBlock(bitwidth=w, addrwidth=2, romdata=vals, name='wrom%d' % len(d.roms),
+                                 max_read_ports=None, asynchronous=True)
+            outs.append(pyrtl.as_wires(rom[fit(rng, pick(), 2)]))
+            d.roms.append(rom)
+    for k, w in enumerate(outs + [i for i in d.inputs]):
+        o = pyrtl.Output(len(w), 'out%d' % k)
+        o <<= w
+        d.outputs.append(o)
+    return d
+
+
+# identifiers the exporter and the testbench generate or reserve for themselves
+OWN_NAMES = ['clk', 'tb_iter', 'block', '_ver_out_tmp_0', 'mem_N', '_ver_out_tmp_1', 'toplevel', 'tb', 'mem_0',
+             '_ver_out_tmp_', 'mem_', 'tb_iter0', 'rst0']
+KINDS = ['register', 'wire', 'const', 'input', 'output']
+
+
+def own_name_design(ctx, rng, k):
+    """user wires of every kind named like what the emitted texts declare themselves; design k < 5 has a wire of
+    kind k named `rst` (only add_reset=False may accept it), the others carry four other own names"""
+    for attempt in range(40):
+        d = gen_designs.make_design(rng, wide_prob=0.05, n_ops=rng.randint(5, 10), ops_subset=make_case.ops)
+        consts = sorted(d.block.wirevector_subset(pyrtl.Const), key=lambda w: w.name)
+        if d.regs and consts:
+            break
+    plain = sorted((w for w in d.block.wirevector_set if type(w) is pyrtl.WireVector), key=lambda w: w.name)
+    by_kind = {'register': list(d.regs), 'wire': plain, 'const': consts, 'input': list(d.inputs),
+               'output': list(d.outputs)}
+    memid = (d.mems + d.roms)[0].id if (d.mems or d.roms) else 0
+    rot = OWN_NAMES[k % len(OWN_NAMES):] + OWN_NAMES[:k % len(OWN_NAMES)]
+    names = (['rst'] if k < 5 else []) + rot[:4 if k >= 5 else 3]
+    done = []
+    for j, nm in enumerate(names):
+        kind = KINDS[(k + j) % 5]
+        if not by_kind[kind]:
+            continue
+        w = by_kind[kind].pop(rng.randrange(len(by_kind[kind])))
+        w.name = nm.replace('mem_N', 'mem_%d' % memid)
+        done.append('%s %s' % (kind, w.name))
+    return d, done
+
+
 def make_variant(ctx, i):
     """('d', k): a derived block (pass / copy);  ('n', k): a design whose memories all carry ONE name (legal:
-    memories are told apart by id) and start from different contents"""
+    memories are told apart by id) and start from different contents;  ('c', k): wide constants in every
+    position;  ('r', k): user wires named like the identifiers the emitted texts declare themselves"""
     kind, k = i
+    if kind in 'cr':
+        rng = ctx.sub_rng('variant', i)
+        if kind == 'c':
+            d, note = wide_const_design(rng), 'wide constants'
+        else:
+            d, done = own_name_design(ctx, rng, k)
+            note = 'own names: ' + ', '.join(done)
+        regmap, memmap, inputs = gen_designs.make_stimulus(rng, d, rng.randint(2, 4))
+        return d, note, regmap, memmap, inputs
     for attempt in range(60):
         rng = ctx.sub_rng('variant', i, attempt)
         small = kind == 'd' and DERIVATIONS[k % len(DERIVATIONS)].startswith('synthesize')
@@ -357,7 +556,7 @@ def history_prefix(ctx, i, d, memmap, inputs):
             b1, b2 = export_tb(block, tracer, add_reset), export_tb(block, tracer, add_reset)
             if t1 != t2 or b1 != b2:
                 same = False
-                report_once(ctx, 'verilog:unstable-text', 'two exports of the same unchanged block differ (design %d, '
+                report_once(ctx, 'verilog:unstable-text', 'two exports of the same unchanged block differ (design %r, '
                             'add_reset=%r, %s)' % (i, add_reset, 'module' if t1 != t2 else 'testbench'),
                             design_replay(ctx, i, d, {'add_reset': add_reset, 'history': 'export twice'}))
     except (pyrtl.PyrtlError, pyrtl.PyrtlInternalError) as e:
@@ -367,7 +566,7 @@ def history_prefix(ctx, i, d, memmap, inputs):
     return same
 
 
-def module_cases(ctx, n, n_hist, n_derived=0, n_samename=0):
+def module_cases(ctx, n, n_hist, n_derived=0, n_samename=0, n_wide=0, n_own=0):
     """n fresh designs exported once; n_hist designs with a history: exported (module + testbench, twice,
     identical text required), EXTENDED IN PLACE, and only then put through the same tie + search; n_derived
     blocks produced by copy_block / optimize / synthesize; n_samename designs whose memories share a name"""
@@ -375,21 +574,23 @@ def module_cases(ctx, n, n_hist, n_derived=0, n_samename=0):
     san_exprs, san_meta = [], []
     tb_jobs = []
     plan = [(i, False) for i in range(n)] + [(('h', k), True) for k in range(n_hist)] + \
-           [(('d', k), False) for k in range(n_derived)] + [(('n', k), False) for k in range(n_samename)]
+           [(('d', k), False) for k in range(n_derived)] + [(('n', k), False) for k in range(n_samename)] + \
+           [(('c', k), False) for k in range(n_wide)] + [(('r', k), False) for k in range(n_own)]
     for i, hist in plan:
         variant = ''
-        if isinstance(i, tuple) and i[0] in 'dn':
+        if isinstance(i, tuple) and i[0] in 'dncr':
             try:
                 made = make_variant(ctx, i)
             except (pyrtl.PyrtlError, pyrtl.PyrtlInternalError) as e:
-                ctx.count('variants', 'rejected:%s:%s' % (DERIVATIONS[i[1] % len(DERIVATIONS)], type(e).__name__))
+                ctx.count('variants', 'rejected:%s:%s:%s' % (i[0], i[1], type(e).__name__))
                 continue
             if made is None:
                 ctx.count('variants', 'too-large')
                 continue
             d, variant, regmap, memmap, inputs = made
             renamed = []
-            ctx.count('variants', variant if i[0] == 'd' else 'same-name-memories')
+            ctx.count('variants', variant if i[0] == 'd' else {'n': 'same-name-memories', 'c': 'wide-constants',
+                                                               'r': 'own-names'}[i[0]])
         else:
             d, renamed, regmap, memmap, inputs = make_case(ctx, i)
         history = []
@@ -435,7 +636,7 @@ def module_cases(ctx, n, n_hist, n_derived=0, n_samename=0):
                                   'then exported again (this text)' % history)
                 rep['text'] = text[:3000]
             try:
-                mod = vr.parse_module(text)
+                mod = vr.parse_module(text, reset_port=bool(add_reset))
                 idmap, rev = ident_map(block, wid0, mod)
             except vr.ReaderError as e:
                 sig = 'verilog:unreadable:' + re.sub(r'[^a-z ]', '', str(e).split(':')[0].lower())[:40].strip()
@@ -444,6 +645,10 @@ def module_cases(ctx, n, n_hist, n_derived=0, n_samename=0):
                 report_once(ctx, sig, 'emitted module is not in the Verilog-2001 subset / not legal: %s%s' % (
                     e, ' (second export of a block extended after its first export)' if hist else ''),
                             dict(rep, text=text[:3000]))
+                continue
+            except Exception as e:   # the reader itself must never take the run down
+                report_once(ctx, 'verilog:unreadable:reader gave up', 'the reader could not process the emitted module: '
+                            '%s: %s' % (type(e).__name__, str(e)[:200]), dict(rep, text=text[:3000]))
                 continue
             stale = set(w.name for w in block.wirevector_set) - set(rev[nm].name for nm in rev)
             if hist and (stale or len(mod.declared()) != len(block.wirevector_set)):
@@ -469,12 +674,12 @@ def module_cases(ctx, n, n_hist, n_derived=0, n_samename=0):
                 dump.coq(), coq_mode, mterm, nlx.zlist(order), dump.memmap(memmap), dump.inputs(inputs),
                 nlx.pairs(probes)))
             names = dump.names()
-            meta.append(dict(i=i, mode=mname, add_reset=add_reset, names=names, rep=rep, block=block, hist=hist,
+            meta.append(dict(i=i, mode=mname, add_reset=add_reset, names=names, rep=rep, block=block, hist=hist, text=text,
                              impl_trace=[[tracer.trace[nm][t] for nm in names] for t in range(len(inputs))],
                              impl_mem=[sim.memvalue[mid].get(a, 0) for (mid, a) in probes],
                              outputs=[k for k, w in enumerate(dump.wires) if isinstance(w, pyrtl.Output)],
                              topo={dump.wid[n.dests[0]] - 1: pos for pos, n in enumerate(dump.nets) if n.dests},
-                             regs=[(nm, rev[nm].reset_value or 0) for nm, _ in mod.regs],
+                             regs=[(nm, getattr(rev[nm], 'reset_value', None) or 0) for nm, _ in mod.regs],
                              ncyc=len(inputs), mod=mod, d=d))
             for _, e in mod.assigns + mod.resets:
                 if e[0] == 'dec':
@@ -497,16 +702,22 @@ def module_cases(ctx, n, n_hist, n_derived=0, n_samename=0):
             if small and (hist or isinstance(i, tuple) or i < (20 if ctx.tier == 'quick' else 80)):
                 tb_jobs.append((i, d, idmap, dump, regmap, memmap, inputs))
     shard = 12 if ctx.tier == 'quick' else 40
-    spec = ctx.coq_eval(spec_exprs, IMPORTS, tag='c05spec', shard=shard, jobs=12)
-    res = ctx.coq_eval(exprs, IMPORTS, tag='c05ver', shard=shard, jobs=12)
+    spec = safe_eval(ctx, spec_exprs, IMPORTS, 'c05spec', shard)
+    res = safe_eval(ctx, exprs, IMPORTS, 'c05ver', shard)
     for c, r in zip(meta, res):
-        judge_module(ctx, c, r, spec[spec_meta[c['i']]])
-    try:
-        san = ctx.coq_eval(san_exprs, IMPORTS_SAN, tag='c05san', shard=shard, jobs=12)
-    except Exception as e:   # Gen/C05Sanitizer.v untranslatable or the model no longer builds
-        san = []
-        ctx.model_mismatch('sanitizer model could not be evaluated: %s' % str(e)[-500:], {})
+        if r is None or spec[spec_meta[c['i']]] is None:
+            ctx.model_mismatch('the Coq evaluator failed or timed out on design %r add_reset=%r' % (
+                c['i'], c['add_reset']), dict(c['rep'], text=c.get('text', '')[:3000]))
+            continue
+        try:
+            judge_module(ctx, c, r, spec[spec_meta[c['i']]])
+        except Exception as e:   # never let one case take the run down
+            ctx.model_mismatch('harness error while judging design %r: %s: %s' % (c['i'], type(e).__name__, e), c['rep'])
+    san = safe_eval(ctx, san_exprs, IMPORTS_SAN, 'c05san', shard)
     for (i, pairs), r in zip(san_meta, san):
+        if r is None:   # Gen/C05Sanitizer.v untranslatable or the model no longer builds
+            ctx.model_mismatch('sanitizer model could not be evaluated on design %r' % (i,), {})
+            continue
         model, flags = r[:-1], r[-1]
         bad = []
         for (name, used), m, ok in zip(pairs, model, flags):
@@ -530,7 +741,7 @@ def judge_module(ctx, c, r, spec):
     bad_checks = [k for k, b in enumerate(checks) if b != 1]
     if bad_checks:
         ctx.model_mismatch('emitted text does not have the structure IO/VerilogEmit.v predicts '
-                           '(emit_checks %s false), design %d add_reset=%r' % (bad_checks, c['i'], c['add_reset']),
+                           '(emit_checks %s false), design %r add_reset=%r' % (bad_checks, c['i'], c['add_reset']),
                            dict(rep, failing_checks=bad_checks))
     ctx.count('structural_tie', 'ok' if not bad_checks else 'broken')
     if any(row[0] != 1 for row in rows):
@@ -557,7 +768,7 @@ def judge_module(ctx, c, r, spec):
         k = min(diffs[t], key=lambda k: c['topo'].get(k, -1))
         nm = c['names'][k]
         op = driver_op(c['block'], nm)
-        what = ('design %d add_reset=%r cycle %d wire %s (driven by op %r): Verilog semantics gives %d, '
+        what = ('design %r add_reset=%r cycle %d wire %s (driven by op %r): Verilog semantics gives %d, '
                 'pyrtl.Simulation %d, Sem %d' % (c['i'], c['add_reset'], t, short(nm), op, vtrace[t][k],
                                                  c['impl_trace'][t][k], spec_trace[t][k]))
         rep2 = dict(rep, first_difference={'cycle': t, 'wire': short(nm), 'verilog': vtrace[t][k],
@@ -576,7 +787,7 @@ def judge_module(ctx, c, r, spec):
         got = rst_row
         want = [v for _, v in c['regs']]
         if got != want:
-            report_once(ctx, 'verilog:reset-value', 'one edge with rst high loads %s, reset values are %s (design %d, %s)' % (
+            report_once(ctx, 'verilog:reset-value', 'one edge with rst high loads %s, reset values are %s (design %r, %s)' % (
                 got, want, c['i'], c['mode']), rep)
 
 
@@ -607,12 +818,15 @@ def testbench_cases(ctx, jobs):
                 'inputs': [{short(k): v for k, v in s.items()} for s in inputs]})
             try:
                 text = export_tb(block, tracer, add_reset)
+            except (pyrtl.PyrtlError, pyrtl.PyrtlInternalError) as e:
+                ctx.count('testbench', 'rejected:' + str(e)[:40])
+                continue
             except Exception as e:
                 report_once(ctx, 'testbench:export-error:%s' % sname,
                             'output_verilog_testbench raised %s: %s' % (type(e).__name__, e), rep)
                 continue
             try:
-                tb = vr.parse_testbench(text)
+                tb = vr.parse_testbench(text, reset_port=bool(add_reset))
                 term = tb.coq(idmap)
             except (vr.ReaderError, KeyError) as e:
                 report_once(ctx, 'testbench:unreadable', 'testbench text outside the subset / illegal: %s' % e,
@@ -634,8 +848,12 @@ def testbench_cases(ctx, jobs):
                             'the testbench initial block assigns ROM mem_%d (%s) although the module\'s own initial '
                             'block holds the ROM data: the two initial blocks race and the ROM may read %d' % (
                                 hit[0][1], hit[0], hit[0][-1]), dict(rep, text=text[:1500]), limit=1)
-    res = ctx.coq_eval(exprs, IMPORTS, tag='c05tb', shard=10 if ctx.tier == 'quick' else 30, jobs=12)
-    for c, (regs_ok, mems_ok, drives_ok) in zip(meta, res):
+    res = safe_eval(ctx, exprs, IMPORTS, 'c05tb', 10 if ctx.tier == 'quick' else 30)
+    for c, r in zip(meta, res):
+        if r is None:
+            ctx.model_mismatch('the Coq evaluator failed on the testbench of design %r (%s)' % (c['i'], c['sim']), c['rep'])
+            continue
+        regs_ok, mems_ok, drives_ok = r
         ctx.case(('tb', c['i'], c['sim']), nontrivial=c['nontrivial'],
                  sample={'testbench_of': c['sim'], 'design': c['i'], 'reg_init': c['tb'].reg_init[:3],
                          'cycle0': c['tb'].cycles[0][:2] if c['tb'].cycles else []} if c['i'] == 0 else None)
@@ -742,8 +960,8 @@ def collide(ctx, sig, what):
 
 def run(ctx):
     _reported.clear()
-    n, n_hist, n_der, n_same = (36, 6, 12, 6) if ctx.tier == "quick" else (800, 60, 120, 40)
-    tb_jobs = module_cases(ctx, n, n_hist, n_der, n_same)
+    sizes = (28, 6, 12, 6, 8, 10) if ctx.tier == "quick" else (760, 60, 120, 40, 60, 60)
+    tb_jobs = module_cases(ctx, *sizes)
     testbench_cases(ctx, tb_jobs)
     targeted(ctx)
 
